@@ -24,6 +24,7 @@ open Pcore.Immut
 #print axioms C08_resolve_memo_breaks
 #print axioms C08_serializer_reads_only
 #print axioms C08_mutator_calls_safe
+#print axioms C08_alias_accessors_reviewed
 open Pcore.Mut
 #print axioms C08_mutable_results_partial
 #print axioms C08_mutable_alias_sites
